@@ -195,6 +195,12 @@ def analyse(sess, outs, strict_lockstep=False):
                     ctxs.pop(reg, None)
                 if kind == "encap_frag" and o.toks[1] == "PduLength" and ctx is not None and ctx[2] <= len(pdu):
                     F(i, ["C09", "C11"], "encap_frag refused a context inside the PDU")
+                if kind == "encap_frag" and o.toks[1] == "SizeBuffer" and ctx is not None and ctx[2] <= len(pdu):
+                    rem = len(pdu) - ctx[2]
+                    # a buffer of 7 bytes always finishes or progresses; with payload left, 4 bytes carry one
+                    if len(buf) >= 7 or (rem >= 1 and len(buf) >= 4):
+                        F(i, ["C11", "C02"], "encap_frag refused a %d-byte buffer with %d bytes remaining (it can carry %s)"
+                          % (len(buf), rem, "the final CRC packet" if rem == 0 else "payload"))
                 enc_state = o.state if kind != "encap_frag" else enc_state
                 continue
             # ---- ok
@@ -206,7 +212,7 @@ def analyse(sess, outs, strict_lockstep=False):
                 ref = sess.ops[op["utils_twin"]]["ref"]
                 if outb != ref:
                     F(i, ["C20"], "the encapsulator emits %s for the fields from which utils generates %s" % (outb.hex()[:60], ref.hex()[:60]))
-            P6 = ["C06"]
+            P6 = ["C06"] if kind != "encap_frag" else ["C06", "C02", "C11"]
             if n > len(buf):
                 F(i, P6 + ["C09"], "reported length %d exceeds the %d-byte buffer" % (n, len(buf)))
             if o.kv.get("rest") != o.kv.get("prerest"):
